@@ -74,6 +74,47 @@ def grpcJudge (coe : Bool) (nLines : Nat) (blank : Nat → Bool) (impl : String)
         if n < nLines then "ok" else s!"fail:outcome:grpc/json provider reported an error after delivering all {nLines} lines"
       else s!"fail:outcome:grpc/json provider unexpected end {endS}"
 
+/-- grpc/json with passes / limit, no chosen cases, judged without knowing which lines jsoniter accepts (round 3).
+`firstSame i` = the first line of the file with the same bytes as line `i`. Every line is delivered (or the run ends at
+the first refused line of the first pass), so entry `i` belongs to line `i % nLines`:
+* the count and the end are those of the options (`passes` passes, at most `limit` entries; `continue_on_error`: every
+  line, valid or invalidated; otherwise a proper prefix of the first pass and an error);
+* what a line is delivered as is a function of the line: two deliveries of the same bytes - in another pass, at another
+  place of the file, whatever pooled object was used - are the same entry (tag, call, metadata, payload, invalid flag). -/
+def grpcMultiJudge (coe : Bool) (nLines passes limit : Nat) (blank : Nat → Bool) (firstSame : Nat → Nat) (impl : String) : String :=
+  match crashVerdict "grpc/json provider" impl with
+  | some v => v
+  | none =>
+    if containsSub impl "oom-guard" then "skip:oom-guard" else
+    let n := (kvOf impl "n").toNat?.getD 0
+    let es := (if n == 0 then [] else (kvOf impl "e").splitOn ",").toArray
+    let endS := kvOf impl "end"
+    let invalidAt (i : Nat) : Bool := (es.getD i "").endsWith ":I"
+    let blankAccepted := (List.range es.size).any fun i => blank (i % nLines) && !invalidAt i
+    let total := if nLines == 0 then 0
+      else if limit != 0 && (passes == 0 || limit ≤ passes * nLines) then limit else passes * nLines
+    let clash := (List.range es.size).find? fun i =>
+      let j := firstSame (i % nLines)
+      j < es.size && es.getD i "" != es.getD j ""
+    if n != es.size then "fail:driver:entry count and entry list differ"
+    else if passes == 0 && limit == 0 && nLines != 0 then "skip:unlimited"
+    else if blankAccepted then "fail:accepted:grpc/json provider delivered a blank line as a valid ammo"
+    else match clash with
+    | some i =>
+      s!"fail:prefix:grpc/json provider delivered line {i % nLines + 1} as {(es.getD i "").take 60} (entry {i + 1}) and the same line as {(es.getD (firstSame (i % nLines)) "").take 60} (entry {firstSame (i % nLines) + 1}): an entry is not delivered as its own line says"
+    | none =>
+      if coe then
+        if endS == "ok" && n == total then "ok"
+        else s!"fail:skipped:grpc/json provider with continue_on_error must deliver every line (valid or invalidated) and end well, expected n={total} end=ok"
+      else
+        if (List.range es.size).any invalidAt then "fail:outcome:grpc/json provider delivered an invalidated ammo without continue_on_error"
+        else if endS == "ok" then
+          if n == total then "ok" else s!"fail:prefix:grpc/json provider ended well after {n} entries, expected {total}"
+        else if endS.startsWith "err" then
+          if n < nLines && (limit == 0 || n < limit) then "ok"
+          else s!"fail:outcome:grpc/json provider reported an error after delivering {n} entries of a file of {nLines} lines"
+        else s!"fail:outcome:grpc/json provider unexpected end {endS}"
+
 /-- metamorphic prefix check, every format (no oracle for the third-party parsers is needed): the provider was run on
 `good` alone (`A[…]`) and on `good ++ junk` (`B[…]`).
 * when `good` alone ends well, its entries are the first entries of the second run, unchanged;
